@@ -114,7 +114,8 @@ uint16_t COTmrGetMinTime(CO_TMR *tmr, uint32_t unit)
         time = 0u;
     } else {
         if (freq <= unit) {
-            time = (uint16_t)(unit / freq);
+            /* length of one tick, rounded up: a shorter time converts to 0 ticks */
+            time = (uint16_t)((unit + freq - 1u) / freq);
         }
     }
     return (time);
